@@ -2424,3 +2424,11 @@ package gomatrixserverlib
 //@   property C10, C11
 //@   nosafety
 //@   ensures unconflicted-state-is-re-applied-after-the-last-auth-pass: called(authAndApplyEvents) ==> ncalls(applyEvents) == after(authAndApplyEvents, ncalls(applyEvents)) + 1
+
+// iterative auth checks: every event is checked against a provider that was emptied for it (no auth event loaded
+// for an earlier event of the batch can satisfy a later one)
+//@ func (*stateResolverV2).authAndApplyEvents
+//@   property C09, C10
+//@   nosafety
+//@   calls allowed@root provider-emptied-for-this-event: ncalls(Clear) == ncalls(allowed) + 1
+//@   loop 1: invariant ncalls(Clear) == ncalls(allowed)
